@@ -78,8 +78,18 @@ def check(case, ctx):
         da, db = _thaw(da), _thaw(db)
         if ctx is not None:
             ctx.count("cells_with_python_sets")
-    pa = families.tmpfile(formats.write(t, da), "-a" + formats.EXT[t])
-    pb = families.tmpfile(formats.write(t, db), "-b" + formats.EXT[t])
+    if case.get("sets"):
+        # protocol >= 4 writes a set with EMPTY_SET/ADDITEMS, which graphtage loads as a multiset node; protocol 2 (used by
+        # formats.write) writes a call to set([...]) instead -- half of the cells each
+        import pickle
+        proto = 4 if core.case_hash([case["fmt"], case["mode"], case["look"], case["same"]]) % 2 == 0 else pickle.HIGHEST_PROTOCOL
+        if ctx is not None:
+            ctx.count("cells_with_python_sets_protocol_%d" % proto)
+        pa = families.tmpfile(pickle.dumps(da, protocol=proto), "-a" + formats.EXT[t])
+        pb = families.tmpfile(pickle.dumps(db, protocol=proto), "-b" + formats.EXT[t])
+    else:
+        pa = families.tmpfile(formats.write(t, da), "-a" + formats.EXT[t])
+        pb = families.tmpfile(formats.write(t, db), "-b" + formats.EXT[t])
     # every other cell runs the way a user's default invocation does: status output enabled and stdout/stderr with real file
     # descriptors (StatusWriter's buffered tqdm.write path); the others with --no-status into in-memory streams
     # ... and a quarter on (pseudo-)terminals, where isatty() is true: colour on by default, tqdm draws its bars
